@@ -401,20 +401,30 @@ fputsUntab(String s, int tabstop, FILE *fout)
 
 Bool	 cmdFloatRepFlag = false;    /* Decrease double precision -Wfloatrep */
 
+/* A zero whose representation differs from +0.0 is a negative zero. */
+local Bool
+dfloatIsNegZero(DFloat d)
+{
+	DFloat	z = 0.0;
+	return d == 0.0 && memcmp(&d, &z, sizeof(d)) != 0;
+}
+
 String
 DFloatSprint(String buf, DFloat d)
 {
 	if (cmdFloatRepFlag) {
 		if (d == 0.0)
 			/*ugly hack to fix output of 0.0 under windows*/
-			sprintf(buf, "0.0000000000000000");
+			sprintf(buf, dfloatIsNegZero(d) ? "-0.0000000000000000"
+							: "0.0000000000000000");
 		else
 			sprintf(buf, "%#.*g", DBL_DIG, d);
 	} else {
 #if 1
 		if (d == 0.0)
 			/*ugly hack to fix output of 0.0 under windows*/
-			sprintf(buf, "0.0000000000000000");
+			sprintf(buf, dfloatIsNegZero(d) ? "-0.0000000000000000"
+							: "0.0000000000000000");
 		else
 			sprintf(buf, "%#.*g", DBL_DIG+2, d);
 #else
